@@ -378,7 +378,8 @@ class MiniInterp:
             return
         if isinstance(st, ast.For):
             src = self.ev(st.iter, env, fi)
-            it = src.lazy() if isinstance(src, LazyIter) else self.iterate(src)
+            # iterators are pulled one element at a time: a loop that is left early leaves the rest in the iterator
+            it = src.lazy() if isinstance(src, LazyIter) else src.pull() if isinstance(src, _Iter) else self.iterate(src)
             broke = False
             try:
                 for x in it:
@@ -720,9 +721,30 @@ class MiniInterp:
         except Exception:
             raise Unknown("equality")
 
+    def class_protocol(self, cls_marker, name):
+        """the method `name` of the metaclass of a project class (Languages[...], x in Languages, for l in Languages), or None"""
+        mc = cls_marker[1].metaclass(self.prj)
+        if mc is None:
+            return None
+        m = mc.find_method(name)
+        return self.prj.func(m.qual, raw=True) if m is not None else None
+
     def contains(self, coll, a) -> bool:
         if isinstance(a, PygT) and as_pygt(coll) is not None:
             return a.within(as_pygt(coll))
+        if isinstance(coll, T):
+            if coll and coll[0] == "class":
+                m = self.class_protocol(coll, "__contains__")
+                if m is not None:
+                    return self.truth(self.call(m, [a], {}, coll))
+                ms = self.enum_members(coll[1])
+                if ms is not None:
+                    return any(self.equal(v, a) for _, v in ms)
+                mi = self.class_protocol(coll, "__iter__")
+                if mi is not None:
+                    return any(self.equal(x, a) for x in self.iterate(self.call(mi, [], {}, coll)))
+                raise PyRaise("TypeError")
+            raise Unknown(f"membership in {coll[0] if coll else 'marker'}")
         if isinstance(coll, ISet):
             return any(self.equal(x, a) for x in coll.xs)
         if isinstance(coll, dict):
@@ -738,8 +760,11 @@ class MiniInterp:
             return a in coll
         if isinstance(coll, (list, tuple, range)):
             return any(self.equal(x, a) for x in coll)
-        if isinstance(coll, _Iter):
-            return any(self.equal(x, a) for x in coll.rest())
+        if isinstance(coll, (_Iter, LazyIter)):
+            for x in self.pull(coll):          # membership consumes the iterator up to the first hit
+                if self.equal(x, a):
+                    return True
+            return False
         if isinstance(coll, (set, frozenset)):
             try:
                 return self.key(a) in coll
@@ -833,6 +858,9 @@ class MiniInterp:
                 ms = self.enum_members(v[1])
                 if ms is not None:
                     return [m for _, m in ms]
+                mi = self.class_protocol(v, "__iter__")
+                if mi is not None:
+                    return self.iterate(self.call(mi, [], {}, v))
             raise Unknown(f"iteration over {v[0]}")
         if isinstance(v, (set, frozenset)):
             # a model order (never CPython's hash order, which varies with PYTHONHASHSEED); reversed on request
@@ -1013,6 +1041,18 @@ class MiniInterp:
                     return obj[lo:hi:st]
                 raise Unknown("slice of this value")
             k = self.ev(n.slice, env, fi)
+            if isinstance(obj, T):
+                if obj and obj[0] == "class":
+                    mg = self.class_protocol(obj, "__getitem__")
+                    if mg is not None:
+                        return self.call(mg, [k], {}, obj)
+                    ms = self.enum_members(obj[1])
+                    if ms is not None and isinstance(k, str):
+                        for nm, val in ms:
+                            if nm == k:
+                                return val
+                        raise PyRaise("KeyError", n)
+                raise Unknown(f"subscript of {obj[0] if obj else 'marker'}")
             if isinstance(obj, (list, tuple, str, dict, range)):
                 try:
                     return obj[self.key(k) if isinstance(obj, dict) else k]
@@ -1124,7 +1164,7 @@ class MiniInterp:
             src = self.ev(g.iter, env2, fi)
             # a lazily produced source (os.walk, a generator function) is pulled one element at a time: what the inner clauses do
             # with an element (pruning the walked directory list) happens before the next one is produced
-            for x in (src.lazy() if isinstance(src, LazyIter) else self.iterate(src)):
+            for x in (src.lazy() if isinstance(src, LazyIter) else src.pull() if isinstance(src, _Iter) else self.iterate(src)):
                 self.tick()
                 self.assign(g.target, x, env2, fi)
                 if all(self.truth(self.ev(c, env2, fi)) for c in g.ifs):
@@ -1634,15 +1674,17 @@ class MiniInterp:
                 return acc
         if mod == "itertools":
             if base == "chain":
-                return _Iter([x for a in args for x in self.iterate(a)])
+                return LazyIter((x for a in args for x in self.pull(a)))
             if full.endswith("chain.from_iterable") or base == "from_iterable":
-                return _Iter([x for a in self.iterate(args[0]) for x in self.iterate(a)])
-            if base in ("takewhile", "dropwhile") and len(args) == 2:
-                xs = self.iterate(args[1])
-                i = 0
-                while i < len(xs) and self.truth(self.apply2(args[0], [xs[i]], {})):
-                    i += 1
-                return _Iter(xs[:i] if base == "takewhile" else xs[i:])
+                return LazyIter((x for a in self.pull(args[0]) for x in self.pull(a)))
+            if base == "takewhile" and len(args) == 2:
+                import itertools as _it
+                fn0 = args[0]
+                return LazyIter(_it.takewhile(lambda x: self.truth(self.apply2(fn0, [x], {})), self.pull(args[1])))
+            if base == "dropwhile" and len(args) == 2:
+                import itertools as _it
+                fn0 = args[0]
+                return LazyIter(_it.dropwhile(lambda x: self.truth(self.apply2(fn0, [x], {})), self.pull(args[1])))
             if base == "accumulate" and args:
                 xs = self.iterate(args[0])
                 fn = args[1] if len(args) > 1 else kwargs.get("func")
@@ -1657,11 +1699,11 @@ class MiniInterp:
                         out.append(self.apply2(fn, [out[-1], x], {}) if fn is not None else self.binop(ast.Add(), out[-1], x, node))
                 return _Iter(out)
             if base == "starmap" and len(args) == 2:
-                return _Iter([self.apply2(args[0], list(self.iterate(t)), {}) for t in self.iterate(args[1])])
+                fn0 = args[0]
+                return LazyIter((self.apply2(fn0, list(self.iterate(t)), {}) for t in self.pull(args[1])))
             if base == "islice" and len(args) >= 2:
-                xs = self.iterate(args[0])
-                sl = slice(*[a for a in args[1:]]) if len(args) > 2 else slice(args[1])
-                return _Iter(xs[sl])
+                import itertools as _it
+                return LazyIter(_it.islice(self.pull(args[0]), *args[1:]))
             if base == "repeat" and len(args) == 2:
                 return _Iter([args[0]] * args[1])
             if base == "zip_longest":
@@ -1866,7 +1908,7 @@ class MiniInterp:
                 return False if v.cls is not None else (_ for _ in ()).throw(Unknown("isinstance of an open term"))
             base = c[1].replace(":", ".").split(".")[-1]
             if base in ("Iterable", "Sequence", "Collection"):
-                return isinstance(v, (list, tuple, dict, str, ISet, _Iter))
+                return isinstance(v, (list, tuple, dict, str, ISet, _Iter, LazyIter))
             return False
         if isinstance(c, tuple):
             return any(self.isinstance_(v, x) for x in c)
@@ -1976,6 +2018,14 @@ class MiniInterp:
             self.call(self.prj.func(post.qual, raw=True), [], {}, obj)
         return obj
 
+    def pull(self, v):
+        """a Python generator that takes elements of v one at a time (iterators and generators are not drained in advance)"""
+        if isinstance(v, LazyIter):
+            return v.lazy()
+        if isinstance(v, _Iter):
+            return v.pull()
+        return iter(self.iterate(v))
+
     def class_namespace(self, c) -> dict:
         """names visible in the body of class c: its functions (plain functions there) and the class attributes evaluated so far"""
         env = {nm: BoundFunc(m, None) for nm, m in c.methods.items()}
@@ -2039,11 +2089,17 @@ class MiniInterp:
             if name == "range":
                 return range(*args)
             if name == "enumerate":
-                return _Iter([(i + (args[1] if len(args) > 1 else kwargs.get("start", 0)), x) for i, x in enumerate(self.iterate(args[0]))])
+                start = args[1] if len(args) > 1 else kwargs.get("start", 0)
+                return LazyIter(((i + start, x) for i, x in enumerate(self.pull(args[0]))))
             if name == "zip":
-                return _Iter(list(zip(*[self.iterate(a) for a in args])))
+                if kwargs.get("strict"):
+                    cols = [self.iterate(a) for a in args]
+                    if len({len(c) for c in cols}) > 1:
+                        raise PyRaise("ValueError", node)
+                    return _Iter(list(zip(*cols)))
+                return LazyIter(zip(*[self.pull(a) for a in args]))
             if name in ("min", "max", "sum", "any", "all", "abs", "int", "bool", "str", "float", "round", "divmod"):
-                a2 = [self.iterate(a) if isinstance(a, _Iter) else a for a in args]
+                a2 = [self.iterate(a) if isinstance(a, (_Iter, LazyIter)) else a for a in args]
                 if name in ("any", "all"):
                     return {"any": any, "all": all}[name](self.truth(x) for x in self.iterate(a2[0]))
                 if name in ("min", "max") and "key" in kwargs and kwargs["key"] is not None:
@@ -2094,10 +2150,11 @@ class MiniInterp:
             if name == "reversed":
                 return _Iter(list(reversed(self.iterate(args[0]))))
             if name == "filter":
-                return _Iter([x for x in self.iterate(args[1]) if self.truth(x if args[0] is None else self.apply(args[0], [x]))])
+                fn0 = args[0]
+                return LazyIter((x for x in self.pull(args[1]) if self.truth(x if fn0 is None else self.apply(fn0, [x]))))
             if name == "map" and len(args) >= 2:
-                cols = [self.iterate(a) for a in args[1:]]
-                return _Iter([self.apply(args[0], list(xs)) for xs in zip(*cols)])
+                fn0 = args[0]
+                return LazyIter((self.apply(fn0, list(xs)) for xs in zip(*[self.pull(a) for a in args[1:]])))
             if name == "iter" and len(args) == 2:
                 out = []
                 while True:
@@ -2160,6 +2217,10 @@ class MiniInterp:
     def call_callable(self, f, args, kwargs):
         if isinstance(f, PyFn):
             return f.fn(args, kwargs)
+        if isinstance(f, (Sym, SymDict)) and getattr(f, "cls", None) is not None:
+            cm = f.cls.find_method("__call__")
+            if cm is not None:
+                return self.call(self.prj.func(cm.qual, raw=True), list(args), dict(kwargs), f)
         if isinstance(f, T) and f[0] in ("builtin", "external", "native", "iset", "class", "method"):
             # a marker used as a first-class callable (sorted(key=len), map(str, ...), filter(Token.is_name, ...))
             fake = ast.Call(func=ast.Name(id="_", ctx=ast.Load()), args=[], keywords=[])
@@ -2346,6 +2407,11 @@ class _Iter:
         r = self.xs[self.i:]
         self.i = len(self.xs)
         return r
+
+    def pull(self):
+        while self.i < len(self.xs):
+            self.i += 1
+            yield self.xs[self.i - 1]
 
 
 def _as_load(t):
